@@ -500,3 +500,5 @@ MANIFEST = {
     'technique': 'provenance/orientation dataflow over value terms (gated single assignment) + mirror (involution) check of sibling call sites',
     'design_ref': 'DESIGN.md 3/C01',
 }
+MANIFEST['note'] += (' Also decided here (necessary conditions shared between properties or added after the independent '
+                     'change rounds, DESIGN.md 8.7): DH secret / public value widths (from C04), successor construction, writers of self.dh and the owner of the INVALID_KE retry.')
